@@ -22,6 +22,8 @@ import (
 	"github.com/diskfs/go-diskfs/filesystem"
 	"github.com/diskfs/go-diskfs/filesystem/ext4"
 	"github.com/diskfs/go-diskfs/filesystem/fat12"
+	"github.com/diskfs/go-diskfs/filesystem/iso9660"
+	"github.com/diskfs/go-diskfs/filesystem/squashfs"
 	"github.com/diskfs/go-diskfs/partition/gpt"
 	"github.com/diskfs/go-diskfs/partition/mbr"
 	"pgregory.net/rapid"
@@ -48,8 +50,12 @@ var c11Read = []string{"gettable", "getfs", "readpart", "verify", "readdir", "re
 
 func genC11(t *rapid.T) any {
 	c := c11Case{}
-	c.Img = rapid.SampledFrom([]string{"gpt", "gpt", "mbr", "fat12", "fat16", "iso9660", "squashfs"}).Draw(t, "img")
+	c.Img = rapid.SampledFrom([]string{"gpt", "gpt", "gpt-badprimary", "mbr", "fat12", "fat16", "iso9660", "squashfs"}).Draw(t, "img")
 	c.Route = rapid.SampledFrom([]string{"writable-fails", "file-new-ro", "file-new-osfile-ro", "open-ro", "frompath-ro", "rw-reads-only"}).Draw(t, "route")
+	if (c.Img == "iso9660" || c.Img == "squashfs") && rapid.IntRange(0, 2).Draw(t, "sameObject") == 0 {
+		// the filesystem object that was just finalized, not a re-opened one: it is read-only from then on
+		c.Route = "finalized-object"
+	}
 	n := rapid.IntRange(3, 25).Draw(t, "nops")
 	for i := 0; i < n; i++ {
 		op := c11Op{Part: rapid.IntRange(1, 3).Draw(t, "part"), N: rapid.IntRange(0, 3).Draw(t, "variant")}
@@ -57,6 +63,20 @@ func genC11(t *rapid.T) any {
 			op.K = rapid.SampledFrom(c11Read).Draw(t, "readOp")
 		} else {
 			op.K = rapid.SampledFrom(c11Mut).Draw(t, "mutOp")
+		}
+		if c.Route == "finalized-object" {
+			// the disk under a freshly finalized filesystem is writable: only filesystem-level calls are in scope
+			// (reading through the object that did the writing is not what the statement is about either: C06/C07
+			// read finalized images through Read; the iso9660 object panics in ReadDir after Finalize, noted in DESIGN)
+			isFSMut := false
+			for _, k := range []string{"mkdir-new", "create", "write", "trunc", "append", "rename", "remove", "setlabel", "chmod", "chown", "chtimes", "symlink", "mkdir-existing", "open-rw"} {
+				if op.K == k {
+					isFSMut = true
+				}
+			}
+			if !isFSMut {
+				op.K = rapid.SampledFrom([]string{"mkdir-new", "create", "write", "remove", "rename", "mkdir-existing", "open-rw", "trunc", "append"}).Draw(t, "fsOp")
+			}
 		}
 		c.Ops = append(c.Ops, op)
 	}
@@ -174,7 +194,7 @@ func c11Build(img string) *c11Image {
 			if img == "iso9660" {
 				im.err = mk.BuildISO(d, im.size, 0, 2048, tree, mk.IsoOpts{RockRidge: true})
 			} else {
-				im.err = mk.BuildSquashfs(d, im.size, 0, 4096, tree, mk.SqOpts{Comp: "gzip"})
+				im.err = mk.BuildSquashfs(d, im.size, 0, 4096, tree, mk.SqOpts{Comp: "gzip", Level: 6})
 			}
 			im.parts[0] = img
 			im.bytes = d.Bytes(0, im.size)
@@ -207,7 +227,24 @@ func execC11(ci any) (r hx.Result) {
 	c := ci.(c11Case)
 	r.Class("img:" + c.Img)
 	r.Class("route:" + c.Route)
-	im := c11Build(c.Img)
+	imgKey := c.Img
+	if c.Img == "gpt-badprimary" {
+		imgKey = "gpt"
+	}
+	im := c11Build(imgKey)
+	if im.err == nil && c.Img == "gpt-badprimary" {
+		// one damaged byte in the primary header (its CRC field): reading falls back to the backup copy,
+		// and must still not write anything - repairing is the caller's decision
+		c11Mu.Lock()
+		bad := c11Images[c.Img]
+		if bad == nil {
+			bad = &c11Image{bytes: append([]byte(nil), im.bytes...), size: im.size, parts: im.parts}
+			bad.bytes[512+16] ^= 0xFF
+			c11Images[c.Img] = bad
+		}
+		c11Mu.Unlock()
+		im = bad
+	}
 	if im.err != nil {
 		r.Discard = true
 		r.Note("image build failed: %s", firstWords(im.err.Error(), 10))
@@ -222,7 +259,47 @@ func execC11(ci any) (r hx.Result) {
 	if c.Img == "squashfs" {
 		lssOpt = append(lssOpt, diskfs.WithSectorSize(diskfs.SectorSize4k))
 	}
+	var finalizedFS filesystem.FileSystem
 	switch c.Route {
+	case "finalized-object":
+		d = dev.New(im.size)
+		b = d
+		tree := []mk.Entry{{Path: "D", Kind: mk.KDir}, {Path: "D/F.TXT", Kind: mk.KFile, Data: mk.Content{Seed: 1, Len: 1500, Style: 2}}, {Path: "A.TXT", Kind: mk.KFile, Data: mk.Content{Seed: 2, Len: 2200, Style: 2}}}
+		if p, pv, _ := hx.Safe(func() {
+			if c.Img == "iso9660" {
+				ws, werr := os.MkdirTemp("", "verif_c11_ws")
+				if werr != nil {
+					err = werr
+					return
+				}
+				defer os.RemoveAll(ws)
+				var fsi *iso9660.FileSystem
+				if fsi, err = iso9660.Create(d, im.size, 0, 2048, ws); err != nil {
+					return
+				}
+				if err = mk.Materialize(ws, tree); err != nil {
+					return
+				}
+				err = fsi.Finalize(mk.IsoOpts{RockRidge: true}.Options())
+				finalizedFS = fsi
+			} else {
+				var fsq *squashfs.FileSystem
+				if fsq, err = squashfs.Create(d, im.size, 0, 4096); err != nil {
+					return
+				}
+				if err = mk.Materialize(fsq.Workspace(), tree); err != nil {
+					return
+				}
+				err = fsq.Finalize(mk.SqOpts{Comp: "gzip", Level: 6}.Options())
+				finalizedFS = fsq
+			}
+		}); p {
+			err = fmt.Errorf("panic: %v", pv)
+		}
+		if err == nil {
+			d.ResetLog()
+			dk, err = diskfs.OpenBackend(b, lssOpt...)
+		}
 	case "writable-fails", "rw-reads-only":
 		d = dev.FromBytes(im.bytes, im.size)
 		if c.Route == "writable-fails" {
@@ -298,6 +375,9 @@ func execC11(ci any) (r hx.Result) {
 	}
 	// filesystems are obtained through the reading path
 	fss := map[int]filesystem.FileSystem{}
+	if finalizedFS != nil {
+		fss[0] = finalizedFS
+	}
 	getFS := func(part int) (filesystem.FileSystem, string) {
 		pn := part
 		if len(im.parts) == 1 {
